@@ -130,6 +130,19 @@ def eps_flow(model: Model, caller_short: str, callee_q: str, eps_param="eps", po
     return obs
 
 
+def _order(fn):
+    """id(node) -> position in a depth-first walk of the function (execution order of straight-line code; independent of line numbers, which an
+    inlined helper keeps from its own definition)"""
+    out = {}
+
+    def go(n):
+        out[id(n)] = len(out)
+        for c in ast.iter_child_nodes(n):
+            go(c)
+    go(fn)
+    return out
+
+
 def rank_cap(model: Model, fshort: str, rmax_names=("rmax", "Rmax")):
     """RANK-CAP: the rank bound used by the truncating slices and stored into the rank list is min(rank_chop, rmax[..])."""
     f = model.func(fshort)
@@ -163,9 +176,15 @@ def rank_cap(model: Model, fshort: str, rmax_names=("rmax", "Rmax")):
         return obs
     obs.append(Ob("RANK-CAP", k0, OK, model.where(f, cap_node), norm(cap_node)[:100], f"cap held in `{capped}`"))
     # the cap must not be overwritten by an uncapped value afterwards, and truncating slices use it
+    def _capped_value(v):
+        if not (isinstance(v, ast.Call) and isinstance(v.func, ast.Name) and v.func.id == "min"):
+            return False
+        elems = list(v.args[0].elts) if (len(v.args) == 1 and isinstance(v.args[0], (ast.List, ast.Tuple))) else list(v.args)
+        return any(isinstance(e, ast.Subscript) and isinstance(e.value, ast.Name) and e.value.id in rmax_names for e in elems)
+    # another assignment of the same name from a rank_chop result that is not itself capped (the CPU / CUDA twins are both capped)
     later_chop = [n for n in ast.walk(f.node) if isinstance(n, ast.Assign) and len(n.targets) == 1
                   and isinstance(n.targets[0], ast.Name) and n.targets[0].id == capped and n is not cap_node
-                  and n.lineno > cap_node.lineno
+                  and not _capped_value(n.value) and _order(f.node)[id(n)] > _order(f.node)[id(cap_node)]
                   and any(isinstance(x, ast.Call) and model.resolve(f.module, x.func) == RANK_CHOP for x in ast.walk(n.value))]
     if later_chop:
         obs.append(Ob("RANK-CAP", f"{fshort}:RANK-CAP:overwritten", VIOLATED, model.where(f, later_chop[0]), norm(later_chop[0])[:100],
